@@ -1,5 +1,5 @@
-import sys; sys.path.insert(0,'/tmp/vx2/tool')
-exec(open('/tmp/vx2/tool/exp5.py').read().rsplit("print(run()",1)[0])
+import sys; sys.path.insert(0,'/tmp/vx3/tool')
+exec(open('/tmp/vx3/tool/exp5.py').read().rsplit("print(run()",1)[0])
 # ---- A
 rules('dns/rdata/a.rs')
 sub('dns/rdata/a.rs', "use super::RR;", "use super::RR;\nuse vstd::prelude::*;\n#[allow(unused_imports)]\nuse crate::vx::*;")
